@@ -2,6 +2,7 @@ package main
 
 import (
 	"bytes"
+	"go/constant"
 	"encoding/json"
 	"fmt"
 	"os"
@@ -305,6 +306,11 @@ func check(c *runCfg) int {
 		harnessPkg[h.Name()] = h.Pkg
 	}
 	known := loadKnown(filepath.Join(c.verif, "known_findings.json"))
+	// vacuity: every assertion label written as a constant in a harness body must be reached on some path
+	required := map[string][]string{}
+	for _, h := range l.harnesses("VH_" + c.prop + "_") {
+		required[h.Name()] = constLabels(h)
+	}
 
 	var cases []*replayCase
 	caseOf := map[*sym.Report]*replayCase{}
@@ -335,6 +341,13 @@ func check(c *runCfg) int {
 		}
 		for _, im := range r.Imprecise {
 			imprecise[im] = true
+		}
+		if r.Exhausted {
+			for _, lab := range required[r.Name] {
+				if !r.Reached[lab] {
+					vacuous = append(vacuous, r.Name+" (assertion never reached: "+lab+")")
+				}
+			}
 		}
 		if r.Completed == 0 && len(r.Errors) == 0 {
 			// no path reached the end of the harness: vacuous unless every path ended in a reported violation
@@ -605,4 +618,44 @@ func loadMeta(c *runCfg) propMeta {
 		}
 	}
 	return m
+}
+
+// constLabels lists the constant label strings of vrt.Assert / Equal / Fail / Reach calls in fn and its closures.
+func constLabels(fn *ssa.Function) []string {
+	seen := map[string]bool{}
+	var out []string
+	var visit func(f *ssa.Function)
+	visit = func(f *ssa.Function) {
+		for _, b := range f.Blocks {
+			for _, ins := range b.Instrs {
+				call, ok := ins.(*ssa.Call)
+				if !ok {
+					continue
+				}
+				callee := call.Call.StaticCallee()
+				if callee == nil || callee.Pkg == nil || !strings.HasSuffix(callee.Pkg.Pkg.Path(), "zz_verifrt") {
+					continue
+				}
+				switch callee.Name() {
+				case "Assert", "Equal", "Fail", "Reach":
+					args := call.Call.Args
+					if len(args) == 0 {
+						continue
+					}
+					if k, ok := args[len(args)-1].(*ssa.Const); ok && k.Value != nil {
+						s := constant.StringVal(k.Value)
+						if !seen[s] {
+							seen[s] = true
+							out = append(out, s)
+						}
+					}
+				}
+			}
+		}
+		for _, an := range f.AnonFuncs {
+			visit(an)
+		}
+	}
+	visit(fn)
+	return out
 }
